@@ -463,6 +463,24 @@ def judge(ctx, cfg_id, pieces, form, case):
         return
     if form == "str" and text.count("\n") >= 2 and len(text) % 3 == 0:
         mixed_line_ends(ctx, parser, text, case)
+    if form != "lazy" and len(text) % 4 == 1:
+        # the same text parsed with the start symbol named explicitly (the documented keyword): the same tree, at the
+        # same places
+        try:
+            again = parser.parse(make_src(), start_symbol_name=tree.name, do_cleanup=False)
+        except llparser.Error as err:
+            ctx.violation("valid-text-rejected", {"type": type(err).__name__, "msg": str(err)[:200],
+                                                  "start_symbol_name": tree.name}, case)
+            return
+        ctx.count("texts_parsed_again_with_the_start_symbol_named")
+        spans_a = [(n.name, n.start_pos.coords if n.start_pos else None, n.end_pos.coords if n.end_pos else None)
+                   for n in all_nodes(tree, [])]
+        spans_b = [(n.name, n.start_pos.coords if n.start_pos else None, n.end_pos.coords if n.end_pos else None)
+                   for n in all_nodes(again, [])]
+        if spans_a != spans_b:
+            k = next((i for i, (a, b) in enumerate(zip(spans_a, spans_b)) if a != b), min(len(spans_a), len(spans_b)))
+            ctx.violation("node-span-wrong", {"with_start_symbol_name": spans_b[k:k + 1], "without": spans_a[k:k + 1]}, case)
+            return
     exp_leaves = [s for s in stream if s[0] not in skip]
     order = []  # leaves and empty nodes in document order
     n_asked = [0]
